@@ -1,7 +1,7 @@
 """C18 - body, heartbeat and protocol-header frames round trip on every channel."""
 from hypothesis import strategies as st
 
-from pbt import strategies as S
+from pbt import entry, strategies as S
 from pbt.lib import body, call, frame, header, heartbeat
 from pbt.props import c16
 from pbt.runner import Component, Violation
@@ -56,6 +56,7 @@ def check_body(case):
     if len(out) != len(data):
         raise Violation('len', 'len(decoded body) == %r for %d bytes' %
                         (len(out), len(data)))
+    entry.frame_entries(obj, ch, enc, out)
 
 
 def check_reuse(case):
